@@ -234,10 +234,18 @@ func ifaceMethodQName(recvT types.Type, m *types.Func) string {
 	return "(interface)." + m.Name()
 }
 
+// deferAsCall makes getCallCommon (and hence every call matcher) see the call carried by a
+// defer instruction; only the lock-balance analysis switches it on, around single matcher calls.
+var deferAsCall bool
+
 func getCallCommon(in ssa.Instruction) *ssa.CallCommon {
 	switch x := in.(type) {
 	case *ssa.Call:
 		return x.Common()
+	case *ssa.Defer:
+		if deferAsCall {
+			return &x.Call
+		}
 	}
 	return nil
 }
